@@ -241,8 +241,32 @@ def check_environment(c, radius, group=None):
 
 
 # ---- correspondence --------------------------------------------------------------------
+def scan_search_boxes(ctx):
+    """source-level tie: every list of reciprocal lengths in crystal.py is [a*, b*, c*] in that order, and each of the periodic
+    queries still sizes its box from such a list (the geometric theorem `ball_in_slab` is about exactly this box)"""
+    import ast
+    src = (core.SRC / "crystal" / "crystal.py").read_text()
+    tree = ast.parse(src)
+    cls = next(n for n in tree.body if isinstance(n, ast.ClassDef) and n.name == "Crystal")
+    have = {}
+    for fn in cls.body:
+        if not isinstance(fn, ast.FunctionDef):
+            continue
+        for n in ast.walk(fn):
+            if isinstance(n, (ast.List, ast.Tuple)) and n.elts and all(isinstance(e, ast.Attribute) and e.attr.endswith("_star") for e in n.elts):
+                names = [e.attr for e in n.elts]
+                have.setdefault(fn.name, []).append(names)
+                if names != ["a_star", "b_star", "c_star"]:
+                    ctx.tie_broken("search box", f"Crystal.{fn.name} builds its cell search box from {names}, not [a_star, b_star, c_star]")
+    for name in ("atoms_in_radius", "atomic_surroundings", "atom_group_surroundings", "molecule_environment"):
+        if name not in have:
+            ctx.tie_broken("search box", f"Crystal.{name} no longer sizes its search box from the reciprocal lengths [a*, b*, c*]")
+    ctx.note("search_box_sites", {k: len(v) for k, v in have.items()})
+
+
 def correspond(ctx):
     import chmpy.crystal.crystal as cc
+    scan_search_boxes(ctx)
     rng = ctx.rng
     cases = []
     for _ in range(60 if not ctx.thorough else 600):
@@ -309,14 +333,14 @@ def correspond(ctx):
 def judge(seed):
     import random
     rng = random.Random(seed)
-    which = rng.choice(["air", "air", "surround", "env", "group"])
+    which = rng.choice(["air", "air", "surround", "env", "env", "group"])
     kind, c = random_crystal(rng, molecular=which in ("env", "group"))
     if c is None:
         return None, None, True
     ang = np.degrees(c.unit_cell.angles)
     nontrivial = bool(np.any(np.abs(ang - 90) > 10))
     for _ in range(6):
-        radius = rng.choice([rng.uniform(1.0, 6.0), rng.uniform(6.0, 14.0), 12.0, rng.uniform(14, 25)]) if which in ("air", "surround") else rng.uniform(2.0, 9.0)
+        radius = rng.choice([rng.uniform(1.0, 6.0), rng.uniform(6.0, 14.0), 12.0, rng.uniform(14, 25)]) if which in ("air", "surround") else rng.choice([rng.uniform(2.0, 9.0), rng.uniform(9.0, 14.0)])
         try:
             if which == "air":
                 fo = np.array([rng.uniform(-3, 4) if rng.random() < 0.3 else rng.uniform(0, 1) for _ in range(3)])
@@ -336,7 +360,7 @@ def judge(seed):
 
 
 def search(ctx, budget):
-    n = 80 if budget == "quick" else 1500
+    n = 120 if budget == "quick" else 1500
     for _ in range(n):
         seed = ctx.rng.randrange(1 << 30)
         tag, r, nontrivial = judge(seed)
